@@ -47,7 +47,13 @@ def configs(quick):
 def eval_config(ctx, cfg, with_model=True):
     from tdgl.solver.solver import TDGLSolver
 
-    dev = zoo.make_device(cfg["dev"], ctx.rng, max_edge_length=1.0)
+    # one device object per kind: successive configurations (other terminal_psi, screening, drives) share it
+    cache = ctx.__dict__.setdefault("_c06_devices", {})
+    if cfg["dev"] not in cache:
+        cache[cfg["dev"]] = zoo.make_device(cfg["dev"], ctx.rng, max_edge_length=1.0)
+    else:
+        ctx.count("solves_on_a_reused_device")
+    dev = cache[cfg["dev"]]
     tp = cfg["tp"]
     tag = dict(device=cfg["dev"], terminal_psi=(None if tp is None else [complex(tp).real, complex(tp).imag]), screening=bool(cfg["opts"].get("include_screening")))
     first = None
